@@ -27,7 +27,7 @@ Definition expected (d : dcond) : rtuple :=
   match d with
   | DHeader neg m h v => [fv_rv (hv_fv h); RS (mt_b neg m); fv_rv (hv_fv v)]
   | DExists neg names => RS (if neg then bs "notexists" else bs "exists") :: map RS names
-  | DSize over n => [RS (bs "size"); RS (if over then bs ":over" else bs ":under"); RI n]
+  | DSize neg over n => [RS (if neg then bs "notsize" else bs "size"); RS (if over then bs ":over" else bs ":under"); RI n]
   | DEnvelope neg m hs ks => [RS (bs "envelope"); RS (mt_b neg m); RL hs; RL ks]
   | DBody neg raw m vals => RS (bs "body") :: RS (if raw then bs ":raw" else bs ":text") :: RS (mt_b neg m) :: map RS vals
   | DCurrentdate neg zone m part keys =>
@@ -83,7 +83,7 @@ Definition rcond_ok (d : dcond) : Prop :=
   match d with
   | DHeader _ _ (HStr h) (HStr v) => hdr_ok (HStr h) /\ rd h /\ rd v
   | DExists _ names => lrd names
-  | DSize _ n => all_digits n = true
+  | DSize _ _ n => all_digits n = true
   | DEnvelope _ _ hs ks => lrd hs /\ lrd ks
   | DBody _ _ _ vals => lrd vals
   | DCurrentdate _ zone _ part keys => rd zone /\ rd part /\ lrd keys
@@ -96,6 +96,7 @@ Definition traw (d : dcond) : rtuple :=
   match d with
   | DHeader _ m h v => [fv_rv (hv_fv h); RS (mtag_b m); fv_rv (hv_fv v)]
   | DExists _ names => RS (bs "exists") :: map RS names
+  | DSize _ over n => [RS (bs "size"); RS (if over then bs ":over" else bs ":under"); RI n]
   | DEnvelope _ m hs ks => [RS (bs "envelope"); RS (mtag_b m); RL hs; RL ks]
   | DBody _ raw m vals => RS (bs "body") :: RS (if raw then bs ":raw" else bs ":text") :: RS (mtag_b m) :: map RS vals
   | DCurrentdate _ zone m part keys =>
@@ -150,12 +151,12 @@ Lemma read_cond : forall d loaded reqs, rcond_ok d ->
             is_action (done f) = false.
 Proof.
   intros d loaded reqs Hok.
-  destruct d as [neg m h v|neg names|over n|neg m hs ks|neg m hs ks|neg raw m vals|neg zone m part keys|zone r part keys| |];
+  destruct d as [neg m h v|neg names|neg over n|neg m hs ks|neg m hs ks|neg raw m vals|neg zone m part keys|zone r part keys| |];
     cbn [rcond_ok] in Hok; try contradiction.
   - destruct h as [s|l], v as [s2|l2]; try contradiction. cbn [hdr_ok] in Hok. rfacts. destruct neg, m;
       (eexists; split; [run_build2|split; [vmr|split; [run_read|split; [intro k; vmr|split; vmr]]]]).
   - rfacts. destruct neg; (eexists; split; [run_build2|split; [vmr|split; [run_read|split; [intro k; vmr|split; vmr]]]]).
-  - pose proof (Hdig n Hok). destruct over; (eexists; split; [run_build2|split; [vmr|split; [run_read|split; [intro k; vmr|split; vmr]]]]).
+  - pose proof (Hdig n Hok). destruct neg, over; (eexists; split; [run_build2|split; [vmr|split; [run_read|split; [intro k; vmr|split; vmr]]]]).
   - rfacts. destruct neg, m; (eexists; split; [run_build2|split; [vmr|split; [run_read|split; [intro k; vmr|split; vmr]]]]).
   - rfacts. destruct neg, raw, m; (eexists; split; [run_build2|split; [vmr|split; [run_read|split; [intro k; vmr|split; vmr]]]]).
   - rfacts. destruct neg, m; (eexists; split; [run_build2|split; [vmr|split; [run_read|split; [intro k; vmr|split; vmr]]]]).
@@ -458,7 +459,7 @@ Print Assumptions factory_read_actions.
 Definition ex_rconds : list dcond :=
   [DHeader true MContains (HStr (bs "Subject")) (HStr (bs "two words [x]"));
    DExists true [bs "X-A"; bs "X-B"];
-   DSize true (bs "2048");
+   DSize true false (bs "2048");
    DEnvelope true MIs [bs "from"] [bs "a@b"; bs "c d"];
    DBody false false MMatches [bs "x y"];
    DCurrentdate true (bs "+0100") MIs (bs "date") [bs "2024-01-01"];
